@@ -329,6 +329,7 @@ pub fn run(rep: &mut Report, thorough: bool) {
         }
     }
     vanish_before_name_read(rep, &mut rng, if thorough { 100 } else { 3 });
+    vanish_before_attach(rep, &mut rng, if thorough { 100 } else { 3 });
     cpuinfo_variants(rep, &mut rng, thorough);
     rep.require("failspot_subsets_run", 32);
     rep.require("natural_failure_dumps", 3);
@@ -507,4 +508,87 @@ fn vanish_before_name_read(rep: &mut Report, rng: &mut Rng, n: usize) {
         }
     }
     rep.require("threads_vanished_before_name_read", 1);
+}
+
+
+/// Threads that were enumerated (and named) but are gone when the writer attaches to them: the
+/// attach fails (ESRCH). That failure belongs to the "attaching to a thread" step and must be
+/// listed under it, one entry per vanished thread, whatever the errno.
+fn vanish_before_attach(rep: &mut Report, rng: &mut Rng, n: usize) {
+    use minidump_writer::verif_hooks::{self, Point};
+    use std::sync::atomic::{AtomicU64, Ordering};
+    use std::sync::{Arc, Mutex};
+    for k in 0..n {
+        let mut b = Builder::new();
+        b.sentinel(rng, Mode::Pause, &StackShape::default(), None, None);
+        let mut exiters = Vec::new();
+        for _ in 0..(2 + k % 3) {
+            exiters.push(b.thread(ThreadKind::Exiter, Some(b"exiter".to_vec())));
+        }
+        b.sentinel(rng, Mode::Pause, &StackShape::default(), None, None);
+        let t = match Target::spawn(b.spec.clone(), &b.opts) {
+            Ok(t) => Arc::new(t),
+            Err(e) => {
+                rep.inconclusive(format!("target did not start: {e}"));
+                continue;
+            }
+        };
+        let leave: Vec<(usize, i32)> = exiters.iter().skip(k % 2).map(|&i| (i, t.manifest.tids[i])).collect();
+        let vanished: Arc<Mutex<Vec<i32>>> = Arc::new(Mutex::new(Vec::new()));
+        let count = Arc::new(AtomicU64::new(0));
+        let (t2, l2, v2, c2) = (t.clone(), leave.clone(), vanished.clone(), count.clone());
+        let mut o = DumpOpts::new(t.pid, t.pid);
+        o.failspots.push("StopProcess".into()); // the target keeps running, so the threads can leave
+        let _g = dump::DUMP_LOCK.lock().unwrap_or_else(|e| e.into_inner());
+        verif_hooks::set_sync(Some(Box::new(move |p| {
+            if let Point::BeforeAttach(tid) = p {
+                if let Some((slot, _)) = l2.iter().find(|(_, x)| *x == tid) {
+                    t2.ctl.set_slot(*slot, SLOT_EXIT_REQ, 1);
+                    let t0 = std::time::Instant::now();
+                    while std::path::Path::new(&format!("/proc/{}/task/{}", t2.pid, tid)).exists() && t0.elapsed().as_secs() < 20 {
+                        std::thread::sleep(std::time::Duration::from_micros(200));
+                    }
+                    if !std::path::Path::new(&format!("/proc/{}/task/{}", t2.pid, tid)).exists() {
+                        v2.lock().unwrap().push(tid);
+                        c2.fetch_add(1, Ordering::SeqCst);
+                    }
+                }
+            }
+        })));
+        let (out, _) = dump::dump(&o);
+        verif_hooks::set_sync(None);
+        drop(_g);
+        let gone: Vec<i32> = vanished.lock().unwrap().clone();
+        rep.case(fnv(format!("vanish-attach/{k}/{}", gone.len()).as_bytes()), !gone.is_empty());
+        rep.count("threads_vanished_before_attach", gone.len() as u64);
+        match out {
+            Outcome::Ok(img) => {
+                let im = image::decode(&img);
+                rep.count("natural_failure_dumps", 1);
+                let soft = im.soft_errors().unwrap_or(Value::Null);
+                // entries under the suspend step that mention the thread
+                let mut suspend_entries: Vec<Value> = Vec::new();
+                if let Some(top) = soft.as_array() {
+                    for e in top {
+                        if let Some(list) = e.get("SuspendThreadsErrors").and_then(|v| v.as_array()) {
+                            suspend_entries.extend(list.iter().cloned());
+                        }
+                    }
+                }
+                for tid in &gone {
+                    let listed_thread = im.threads.as_ref().map(|v| v.iter().any(|th| th.tid as i32 == *tid)).unwrap_or(false);
+                    let reported = suspend_entries.iter().any(|e| e.to_string().contains(&format!("[{tid},")) || e.to_string().contains(&format!(":{tid}}}")));
+                    if !listed_thread && !reported {
+                        rep.violation("C11 failed attach to a vanished thread not listed under the suspend step", json!({"tid": tid, "soft_errors": soft}));
+                    }
+                }
+                for (kk, m) in generic_invariants(&im) {
+                    rep.violation(&format!("C11 {kk}"), json!({"case": "threads vanish before attach", "message": m}));
+                }
+            }
+            Outcome::Err(e) => rep.violation("C11 dump failed when threads vanished before the attach", json!({"error": e.chars().take(200).collect::<String>()})),
+            Outcome::Panic { message, location } => rep.violation(&format!("C11 panic at {location}"), json!({"panic": message})),
+        }
+    }
+    rep.require("threads_vanished_before_attach", 1);
 }
